@@ -138,7 +138,7 @@ def run_scheduled(case, prefix=None):
             "choices": list(sched.choices), "escaped": list(sched.escaped), "steps": sched.steps}
 
 
-def run_real(case, timeout=75.0):
+def run_real(case, timeout=60.0):
     """real spawned processes, no substitution; only the outcome is observed.  Runs in a fresh interpreter so that
     the daemon threads / worker processes the real code leaves behind (e.g. after an abandon) cannot touch later cases."""
     import subprocess
@@ -161,7 +161,7 @@ def run_real(case, timeout=75.0):
     raise RuntimeError("real-process runner failed: rc=%s %s" % (p.returncode, (p.stderr or p.stdout)[-800:]))
 
 
-def _run_real_here(case, timeout=75.0):
+def _run_real_here(case, timeout=60.0):
     from props import c08_filters as FL
     logdir = tempfile.mkdtemp(prefix="c08-")
     res = {}
@@ -639,6 +639,8 @@ class C08(Property):
 
     # ---- shrinking
     def shrink(self, case):
+        if case.get("mode") == "real":
+            return                      # a hanging real-process run costs a full time-out per candidate
         items = case["items"]
         for k in range(len(items)):
             c = dict(case, items=items[:k] + items[k + 1:])
